@@ -97,6 +97,10 @@ rt_eps!(rt_eps_vec_opt_u8_1, Vec<Option<u8>>, 3, 48, 5, 1);
 rt_eps_str!(rt_eps_string_2, String, 3, 48, 5, 2);
 // @h rt_eps_vec_unit_1 props=C02,C03,C07 tier=quick kind=bounded bound="len<=3" vars="v:Vec<()>, pos0=1" fns="impls/vec.rs"
 rt_eps!(rt_eps_vec_unit_1, Vec<()>, 3, 48, 5, 1);
+// deep elements whose encoding is empty: the sequence is just its length word, so the item
+// count exceeds the bytes that follow (added after seed C02-R9)
+// @h rt_eps_vec_empty_deep_1 props=C02,C07 tier=thorough kind=bounded bound="len<=3" vars="v:Vec<[Option<u8>;0]>, pos0=1" fns="deser/helpers.rs:deserialize_eps_vec_deep,impls/array.rs:DeserializeHelper<Deep>"
+rt_eps!(rt_eps_vec_empty_deep_1, Vec<[Option<u8>; 0]>, 3, 48, 5, 1);
 // @h rt_eps_vec_z8_1 props=C02,C03,C05,C07 tier=thorough kind=bounded bound="len<=2" vars="v:Vec<Z8>, pos0=1" fns="impls/vec.rs,derive:Z8"
 rt_eps!(rt_eps_vec_z8_1, Vec<Z8>, 2, 48, 5, 1);
 // @h rt_eps_ed_3 props=C02,C05,C07,C15 tier=quick kind=complete vars="v:ED (explicit discriminants), pos0=3" fns="derive:ED"
